@@ -16,6 +16,7 @@ variants=("$@")
 if [ ! -f Cargo.lock ]; then cp /repo/rust/Cargo.lock Cargo.lock; fi
 exec 9>"$HERE/bin/.build.lock"
 flock 9
+python3 "$HERE/tools/debug_assert_sites.py" > "$HERE/bin/debug_assert_sites.txt" 2>/dev/null || true
 for v in "${variants[@]}"; do
   case "$v" in
     rel) extra=() ;;
